@@ -216,7 +216,7 @@ func idxTensor(rt *rapid.T, shape []int, vals []int64) tensor.Tensor {
 
 func c08Gen(rt *rapid.T) c08Case {
 	var c c08Case
-	c.op = rapid.SampledFrom([]string{"Transpose", "Concat", "Slice", "Slice", "Gather", "Expand"}).Draw(rt, "op")
+	c.op = drawOp(rt, []string{"Transpose", "Concat", "Slice", "Slice", "Gather", "Expand"})
 	dt := rapid.SampledFrom(ops.AllTypes).Draw(rt, "dtype")
 	c.valid = true
 	c.nData = 1
